@@ -94,7 +94,55 @@ WIDE_SIZES = [12, 17, 20, 33, 40, 51, 65, 101, 130, 300]
 ODD_LABELS = ['{}', '{0}', '{x}', "awk '{print $1}'", '%s %d', '100%', 'a "quoted" one',
               'two\nlines', '', ' ', 'é→中', '${HOME}', '}{', 'x' * 60, 0, 7, ('a', 1)]
 EXC_NAMES = ['TimeoutError', 'KeyError', 'ValueError', 'OSError', 'RuntimeError',
-             'LookupError', 'AssertionError', 'BaseExc']
+             'LookupError', 'AssertionError', 'BaseExc', 'NotImplementedError',
+             'ConnectionResetError', 'InvalidStateError', 'IndexError', 'AttributeError',
+             'TypeError', 'UnicodeEncodeError']
+ENTRIES = ['run', 'orchestrate', 'co_run', 'run-no-current-loop', 'co_run-called-early']
+
+
+def exception_entry_sweep():
+    """every exception class x every way of starting the run x scheduler class / critical /
+    nesting / verbose: a critical job raises it at t=1 while another job runs"""
+    combos = [(exc, entry, cls, critical, nested, verbose)
+              for exc in ['VExc'] + EXC_NAMES for entry in ENTRIES
+              for cls in ('nestable', 'pure') for critical in (False, True)
+              for nested in (False, True) for verbose in (False, True)
+              if not (cls == 'pure' and critical)]
+
+    def job(ident, d, **kw):
+        out = dict(kind='job', id=ident, cls='abstract', d=d, k=0, outcome='return',
+                   critical=False, forever=False, c=0, sd=0, hkey=1, tkey=0)
+        out.update(kw)
+        return out
+
+    def sched(ident, members, **kw):
+        out = dict(kind='sched', id=ident, cls='nestable', window=None, timeout=None, sdt=1,
+                   critical=False, forever=False, verbose=False, hkey=0, tkey=0,
+                   members=members, edges=[], order=list(range(len(members))), build='ctor',
+                   wild=False)
+        out.update(kw)
+        return out
+
+    def chunk(k):
+        for n, (exc, entry, cls, critical, nested, verbose) in enumerate(combos):
+            if n % 8 != k:
+                continue
+            for msg in (None, ''):
+                boom = job('j1', 1, outcome='raise', critical=True, exc=exc,
+                           cls='coroutine' if n % 3 == 0 else 'abstract')
+                if msg is not None:
+                    boom['excmsg'] = msg
+                if nested:
+                    inner = sched('s1', [boom, job('j2', 3)], critical=True, verbose=verbose)
+                    top = sched('s0', [inner, job('j3', 4)], cls=cls, critical=critical,
+                                verbose=verbose, entry=entry)
+                else:
+                    top = sched('s0', [boom, job('j2', 3)], cls=cls, critical=critical,
+                                verbose=verbose, entry=entry)
+                yield top
+    return ('critical failure: %d exception classes x %d entry points x scheduler class / '
+            'critical / nested / verbose x with and without a message'
+            % (len(EXC_NAMES) + 1, len(ENTRIES)), 8, chunk)
 
 
 def _draw_job(draw, prof, wild, wide=False):
